@@ -32,14 +32,19 @@ func vNestedRoots(t vTable) bool {
 
 // H_C17: Allow headers tell the truth about which methods are routable.
 func H_C17(tbl, router int) {
+	pathCap, maxSeg := 12, 3
+	if router >= 10 { // thorough bounds
+		router -= 10
+		_, pathCap, maxSeg = vDeep(10, pathCap, maxSeg)
+	}
 	t := vTableFor(tbl)
 	h := vNewH(t)
 	c := h.build(vRouter(router))
 	c.Filter(c.OPTIONSFilter)
 	ht := &vH{table: t, flat: h.flat, cond: h.cond}
 	twin := ht.build(vRouter(router))
-	p := nondetString("path", 12)
-	verifAssume(strings.Count(strings.Trim(p, "/"), "/") < 3)
+	p := nondetString("path", pathCap)
+	verifAssume(strings.Count(strings.Trim(p, "/"), "/") < maxSeg)
 	// recorded findings
 	// (the URL is claimed by the root expressions of more than one WebService)
 	segsK, _ := vSegments(p)
